@@ -32,7 +32,11 @@ Classes  == {"valid",        \* leaf issued by CA-A, in date, EKU clientAuth+ser
 SendModes == {"always",      \* client peer presents its certificate regardless of the server's CA hint
               "hint"}        \* client peer obeys certificate_authorities (stock crypto/tls client behaviour)
 Versions == {"tls12", "tls13"}
-Creds(role) == [class : Classes, send : IF role = "server" THEN SendModes ELSE {"always"}, ver : Versions]
+\* the server name a client peer puts into its ClientHello: none, the name in the proxy's own certificate, a name that certificate
+\* does not cover.  No decision - property or code - reads it: a server admits by the CLIENT's certificate only.
+Snis == {"none", "own", "foreign"}
+Creds(role) == [class : Classes, send : IF role = "server" THEN SendModes ELSE {"always"}, ver : Versions,
+                sni : IF role = "server" THEN Snis ELSE {"none"}]
 
 \* ---- facts about the credentials (true by construction of the certificate factory)
 IssuedByA(k)   == k \in {"valid", "expired", "wrongEKU"}
